@@ -237,7 +237,7 @@ pub fn bop_strategy(cols: usize) -> BoxedStrategy<BOp> {
         2 => (0u64..5).prop_map(BOp::Inc),
         1 => prop_oneof![0u64..100, Just(99999u64)].prop_map(BOp::SetPos),
         5 => multi_text(cols).prop_map(BOp::SetMessage),
-        2 => line_text(cols).prop_map(BOp::SetPrefix),
+        2 => prop_oneof![3 => line_text(cols), 1 => multi_text(cols)].prop_map(BOp::SetPrefix),
         2 => stpl_strategy().prop_map(BOp::SetStyle),
         1 => (0u64..1000).prop_map(BOp::SetLength),
         4 => multi_text(cols).prop_map(BOp::Println),
@@ -276,7 +276,7 @@ pub fn decode_bop(u: &mut FuzzInput, cols: usize) -> BOp {
         3 | 4 => BOp::Inc(u.n(4) as u64),
         5 => BOp::SetPos(u.n(100) as u64),
         6 | 7 | 8 | 9 => BOp::SetMessage(u.text(cols)),
-        10 | 11 => BOp::SetPrefix(u.line(cols)),
+        10 | 11 => BOp::SetPrefix(if u.n(3) == 0 { u.text(cols) } else { u.line(cols) }),
         12 | 13 => BOp::SetStyle(decode_stpl(u)),
         14 => BOp::SetLength(u.n(1000) as u64),
         15 | 16 | 17 => BOp::Println(u.text(cols)),
